@@ -64,6 +64,13 @@ thread_local! {
                 f.edges.push((i + 1, 100));
             }
         }
+        // a few records of every kind (set similarity / clustering must not depend on annotations)
+        for k in 0..3usize {
+            for r in 1..=4u32 {
+                let terms: Vec<u32> = f.terms.iter().map(|t| t.id).filter(|id| (id + r + k as u32) % (3 + r) == 0).take(12).collect();
+                f.recs[k].push(RecFact { id: r, name: format!("r{k}{r}"), terms });
+            }
+        }
         crate::build::via_binary(&f, 3).expect("flat ontology")
     };
 }
